@@ -913,6 +913,12 @@ impl S3 for FileSystem {
             }
         }
 
+        // the bucket may have been deleted since the upload was created: the object is not written then
+        // (writing it would recreate the bucket directory)
+        if self.get_bucket_path(&bucket)?.exists().not() {
+            return Err(s3_error!(NoSuchBucket));
+        }
+
         let mut file_writer = self.prepare_file_write(&object_path)?;
         for (_, part_path, _) in &parts {
             let mut reader = try_!(fs::File::open(part_path).await);
